@@ -742,11 +742,17 @@ def main(argv=None):
                        "split_url_events: whatever urlparse raises) are compared by class with the model and are not "
                        "counted as property violations: the statement speaks about returned events",
                        "the engine-independent match oracle (substring containment) is used for ASCII literal "
-                       "patterns on ASCII values; otherwise the oracle calls re itself"]
+                       "patterns on ASCII values; otherwise the oracle calls re itself",
+                       "which cells the four transforms write (in place: categorize / tag / split_url_events; copies: "
+                       "simplify_string) and which objects their results share with the arguments: theorems over the "
+                       "heap-level model (Props/C19own.v), tied by harness/theap2.py with aliasing inputs"]
+    from . import theap2           # heap-level model of the C19 transforms (Props/C19own.v), tie A with aliasing
+    if "C19" in theap2.GROUPS:
+        theap2.heap_check(ck, "C19", have_driver=theap2.prepare(ck, "C19"))
     return ck.finish(RULE)
 
 
-EXTRA_TARGETS = ["Bridge/BridgeClassify.v"]
+EXTRA_TARGETS = ["Bridge/BridgeClassify.v", "Props/C19own.v"]
 GEN_KERNELS = ["Rule.__init__", "Rule.match", "_pick_deepest_cat", "_pick_category", "_categorize_one", "_tag_one"]
 
 if __name__ == "__main__":
